@@ -299,6 +299,153 @@ pub fn c10_set_drain<const N: usize>() {
     if !forgot { vf::check(tok::balanced(), 302); } else { vf::check(tok::no_excess(), 301); }
 }
 
+/// Provided `Iterator` methods that an implementation may override (nth, last, count, fold / for_each, size_hint after
+/// them) must agree with plain stepping: iterator `a` uses the method, its twin `b` (same container state) is stepped
+/// with next().  `$ser` maps an item to a comparable id.  ids 621 nth, 622 last, 623 count, 624 fold, 625 state after nth
+macro_rules! provided {
+    ($a:expr, $b:expr, $ser:expr, $N:expr) => {{
+        let (j, k, which) = (vf::any_usize(), vf::any_usize(), vf::any_u8());
+        vf::assume(which < 4 && k <= $N);
+        let mut a = $a;
+        let mut b = $b;
+        // common symbolic prefix by stepping
+        let mut i = 0usize;
+        while i < $N { if i < j { let (x, y) = (a.next(), b.next()); vf::check(x.is_some() == y.is_some(), 625); drop((x, y)); } i += 1; }
+        match which {
+            0 => {
+                vf::reach(1);
+                // nth(k) == k discarded next() calls followed by one more
+                let x = a.nth(k);
+                let mut i = 0usize;
+                while i < $N { if i < k { drop(b.next()); } i += 1; }
+                let y = b.next();
+                match (&x, &y) { (Some(p), Some(q)) => vf::check($ser(p) == $ser(q), 621), (None, None) => {}, _ => vf::check(false, 621) }
+                drop((x, y));
+                vf::check(a.len() == b.len() && a.size_hint() == b.size_hint(), 625);
+                // and the two continue identically
+                let mut i = 0usize;
+                while i <= $N {
+                    let (x, y) = (a.next(), b.next());
+                    match (&x, &y) { (Some(p), Some(q)) => vf::check($ser(p) == $ser(q), 625), (None, None) => {}, _ => vf::check(false, 625) }
+                    drop((x, y));
+                    i += 1;
+                }
+            }
+            1 => {
+                vf::reach(2);
+                let x = a.last();
+                let mut y = None;
+                let mut i = 0usize;
+                while i <= $N { if let Some(q) = b.next() { y = Some(q); } i += 1; }
+                match (&x, &y) { (Some(p), Some(q)) => vf::check($ser(p) == $ser(q), 622), (None, None) => {}, _ => vf::check(false, 622) }
+                drop((x, y));
+            }
+            2 => {
+                vf::reach(3);
+                let want = b.len();
+                vf::check(a.count() == want, 623);
+                let mut n = 0usize;
+                let mut i = 0usize;
+                while i <= $N { if let Some(q) = b.next() { n += 1; drop(q); } i += 1; }
+                vf::check(n == want, 623);
+            }
+            _ => {
+                vf::reach(4);
+                // fold / for_each visit the same items in the same order as stepping
+                let mut fs = [0u16; 8];
+                let fnn = a.fold(0usize, |n, p| { if n < 8 { fs[n] = $ser(&p); } n + 1 });
+                let mut i = 0usize;
+                let mut n = 0usize;
+                while i <= $N { if let Some(q) = b.next() { vf::check(n < 8 && fs[n] == $ser(&q), 624); n += 1; drop(q); } i += 1; }
+                vf::check(n == fnn, 624);
+            }
+        }
+    }};
+}
+
+/// borrowing iterators: two iterators over the same container
+pub fn c09_provided<const N: usize>() {
+    tok::reset();
+    let (mut m, md) = any_map::<N>();
+    let kind = vf::any_u8();
+    vf::assume(kind < 4);
+    match kind {
+        0 => provided!(m.iter(), m.iter(), |x: &(&Tok, &Tok)| x.0.serial(), N),
+        1 => provided!(m.keys(), m.keys(), |x: &&Tok| x.serial(), N),
+        2 => provided!(m.values(), m.values(), |x: &&Tok| x.serial(), N),
+        _ => {
+            // iter_mut / values_mut cannot coexist on one map: compare with a shared iterator's ids
+            let which = vf::any_bool();
+            let k = vf::any_usize();
+            vf::assume(k <= N);
+            let mut want = tok::FREE;
+            { let mut b = m.iter(); let mut i = 0usize; while i < N { if i < k { let _ = b.next(); } i += 1; } if let Some((_, v)) = b.next() { want = v.serial(); } }
+            let got = if which { m.iter_mut().nth(k).map(|x| x.1.serial()) } else { m.values_mut().nth(k).map(|v| v.serial()) };
+            vf::check(got.unwrap_or(tok::FREE) == want, 621);
+            let c = if which { m.iter_mut().count() } else { m.values_mut().count() };
+            vf::check(c == md.n, 623);
+            let l = if which { m.iter_mut().last().map(|x| x.1.serial()) } else { m.values_mut().last().map(|v| v.serial()) };
+            let wl = m.iter().last().map(|x| x.1.serial());
+            vf::check(l == wl, 622);
+            vf::reach(1); vf::reach(2); vf::reach(3); vf::reach(4);
+        }
+    }
+    observe(&m, &md);
+    finish(m);
+}
+pub fn c09_set_provided<const N: usize>() {
+    tok::reset();
+    let (s, md) = any_set::<N>();
+    provided!(s.iter(), s.iter(), |x: &&Tok| x.serial(), N);
+    observe_set(&s, &md);
+    finish_set(s);
+}
+
+/// twin containers built by the same operation sequence (same key/value classes in the same slot order)
+fn twin_maps<const N: usize>() -> (micromap::Map<Tok, Tok, N>, micromap::Map<Tok, Tok, N>) {
+    let (mut a, mut b): (micromap::Map<Tok, Tok, N>, micromap::Map<Tok, Tok, N>) = (empty_map(), empty_map());
+    let n = vf::any_usize();
+    vf::assume(n <= N);
+    let mut i = 0;
+    while i < N {
+        let (k, v) = (vf::any_u8(), vf::any_u8());
+        if i < n { drop(a.insert(Tok::new(k), Tok::new(v))); drop(b.insert(Tok::new(k), Tok::new(v))); }
+        i += 1;
+    }
+    // a removal, so that the slot order is not simply the insertion order
+    let r = vf::any_u8();
+    if vf::any_bool() { drop(a.remove(&tok::BKey::free(r))); drop(b.remove(&tok::BKey::free(r))); }
+    (a, b)
+}
+
+/// consuming iterators and drain: provided methods vs stepping on a twin container; items compared by (key class, value class)
+pub fn c10_provided<const N: usize, const KIND: u8>() {
+    tok::reset();
+    let (mut a, mut b) = twin_maps::<N>();
+    match KIND {
+        0 => provided!(a.into_iter(), b.into_iter(), |x: &(Tok, Tok)| ((x.0.key() as u16) << 8) | x.1.key() as u16, N),
+        1 => provided!(a.into_keys(), b.into_keys(), |x: &Tok| x.key() as u16, N),
+        2 => provided!(a.into_values(), b.into_values(), |x: &Tok| x.key() as u16, N),
+        _ => { provided!(a.drain(), b.drain(), |x: &(Tok, Tok)| ((x.0.key() as u16) << 8) | x.1.key() as u16, N); vf::check(a.len() == 0 && b.len() == 0, 612); drop(a); drop(b); }
+    }
+    vf::check(tok::balanced(), 302);
+}
+pub fn c10_set_provided<const N: usize>() {
+    tok::reset();
+    let (mut a, mut b): (Set<Tok, N>, Set<Tok, N>) = (empty_set(), empty_set());
+    let n = vf::any_usize();
+    vf::assume(n <= N);
+    let mut i = 0;
+    while i < N {
+        let k = vf::any_u8();
+        if i < n { let _ = a.insert(Tok::new(k)); let _ = b.insert(Tok::new(k)); }
+        i += 1;
+    }
+    if vf::any_bool() { provided!(a.into_iter(), b.into_iter(), |x: &Tok| x.key() as u16, N); }
+    else { provided!(a.drain(), b.drain(), |x: &Tok| x.key() as u16, N); drop(a); drop(b); }
+    vf::check(tok::balanced(), 302);
+}
+
 /// Default iterators are empty (and, for the owning ones, own nothing)
 pub fn c09_defaults<const N: usize>() {
     tok::reset();
@@ -326,6 +473,10 @@ harnesses! {
     c09_values_mut: [0] [1] [2] [3];
     c09_set_iter: [0] [1] [2] [3];
     c09_defaults: [0] [2];
+    c09_provided: [1] [2] [3];
+    c09_set_provided: [1] [2] [3];
+    c10_provided: [1, 0] [2, 0] [3, 0] [1, 1] [2, 1] [1, 2] [2, 2];
+    c10_set_provided: [1] [2] [3];
     c10_into_iter: [0] [1] [2] [3];
     c10_into_keys: [0] [1] [2] [3];
     c10_into_values: [0] [1] [2] [3];
@@ -333,6 +484,10 @@ harnesses! {
     c10_drain: [0] [1] [2] [3];
     c10_set_drain: [0] [1] [2] [3];
     @deep
+    c09_provided: [4];
+    c09_set_provided: [4];
+    c10_provided: [1, 3] [2, 3] [3, 1] [3, 2] [4, 0];
+    c10_set_provided: [4];
     c09_iter: [4] [5];
     c09_keys: [4] [5];
     c09_values: [4] [5];
